@@ -154,11 +154,15 @@ func (vm *VM) SetReturnValue(value Element) {
 	}
 }
 
-func (vm *VM) BeginScope() {
+// BeginScope - begin a new scope on current module's symbol table and return that table,
+// so the caller could end the scope on the SAME table (the current module may have been
+// changed by a failed call when the block ends)
+func (vm *VM) BeginScope() *Scope {
 	scope := vm.getCurrentScope()
 	if scope != nil {
 		scope.BeginScope()
 	}
+	return scope
 }
 
 // EndScope - end current scope
